@@ -500,10 +500,15 @@ pub fn plan(p: u32, tier: &str) -> Vec<Run> {
             o4h.faults = vec![false, false];
             o4h.orders = Orders::Few;
             add(o4h, families::slots(4));
-            add(late("late2x-ff", false), families::late_gadget(2, true));
-            add(late("latepair-ff", false), families::late_pair());
-            add(late("bigshapes-ff", false), families::big_shapes());
-            add(chains(false), families::chains(6));
+            // the 5-7 job families, failure-free, identity / reversed node / reversed edge declaration order
+            let few = |mut x: Spec| {
+                x.orders = Orders::Few;
+                x
+            };
+            add(few(late("late2x-ff-orders-few", false)), families::late_gadget(2, true));
+            add(few(late("latepair-ff-orders-few", false)), families::late_pair());
+            add(few(late("bigshapes-ff-orders-few", false)), families::big_shapes());
+            add(few(chains(false)), families::chains(6));
             if thorough {
                 let mut oa = s("S3D2-orders-all", 2, m);
                 oa.orders = Orders::All;
